@@ -71,4 +71,9 @@ inductive Encodes (e : Endian) (asz : Nat) (aarch64 : Bool) : Instr â†’ Bytes â†
   | argsSize (n : Nat) (bn : Bytes) : ULeb n bn â†’ Encodes e asz aarch64 (.argsSize n) (0x2e :: bn)
   | negateRaState : aarch64 = true â†’ Encodes e asz aarch64 .negateRaState [0x2d]
 
+/-- the opcodes with a signed LEB128 operand, which `Encodes` does not describe -/
+def signedOperand : Instr â†’ Bool
+  | .offsetExtendedSf .. | .defCfaSf .. | .defCfaOffsetSf .. | .valOffsetSf .. => true
+  | _ => false
+
 end Gimli.Spec.Cfi
